@@ -351,12 +351,7 @@ func ruleC14Wrap(c *Ctx) {
 			if !deref {
 				return
 			}
-			bad := false
-			for _, r := range Returns(g) {
-				if isNilConst(strip(r.Results[0])) {
-					bad = true
-				}
-			}
+			bad := mayReturnNilPtr(g, map[*ssa.Function]bool{})
 			key := FnName(fn) + " | uses result of " + FnName(g) + " ignoring its error"
 			if bad {
 				c.Bad(rule, key, c.P.InstrPos(in), FnName(g)+" can return a nil pointer (with an error) but this caller ignores the error and dereferences the pointer: nil-pointer panic in the handler", nil)
@@ -418,6 +413,33 @@ func handlerRegion(P *Prog) map[*ssa.Function]bool {
 	}
 	regionCache[P] = seen
 	return seen
+}
+
+// mayReturnNilPtr: some return of g yields a nil first result, directly or by forwarding the
+// results of a callee that does.
+func mayReturnNilPtr(g *ssa.Function, seen map[*ssa.Function]bool) bool {
+	if g == nil || g.Blocks == nil || seen[g] {
+		return false
+	}
+	seen[g] = true
+	for _, r := range Returns(g) {
+		if len(r.Results) == 0 {
+			continue
+		}
+		for _, v := range phiInputs(strip(r.Results[0])) {
+			if isNilConst(v) {
+				return true
+			}
+			if ex, ok := v.(*ssa.Extract); ok && ex.Index == 0 {
+				if cl, ok := ex.Tuple.(*ssa.Call); ok {
+					if h := cl.Call.StaticCallee(); h != nil && mayReturnNilPtr(h, seen) {
+						return true
+					}
+				}
+			}
+		}
+	}
+	return false
 }
 
 func pkgOf(f *ssa.Function) *types.Package {
